@@ -347,22 +347,28 @@ def triage(ctx, rejected, module):
             if kf:
                 note_known(ctx, kf)
             else:
-                open_evs.append((ev, cl))
+                open_evs.append((ev, cl, mk))
         # call-site findings: the event must validate when exactly that site is switched off
         for f in known.get("findings", []):
             if not open_evs:
                 break
             if ctx.prop not in f.get("properties", [f.get("property")]) or not f.get("counterfactual"):
                 continue
-            cfres = reexec_batch(ctx, [e for e, _ in open_evs], mod, "cf-%s-%s" % (f["id"], mod), cf=f["counterfactual"])
+            # a counter-factual finding may additionally require a signature marker of the specification on the
+            # rejected event itself ("requires_marker"): the finding is then only a candidate for events with it
+            cand = [(ev, cl, mk) for ev, cl, mk in open_evs if not f.get("requires_marker") or f["requires_marker"] in mk]
+            rest = [(ev, cl, mk) for ev, cl, mk in open_evs if f.get("requires_marker") and f["requires_marker"] not in mk]
+            if not cand:
+                continue
+            cfres = reexec_batch(ctx, [e for e, _, _ in cand], mod, "cf-%s-%s" % (f["id"], mod), cf=f["counterfactual"])
             still = []
-            for (ev, cl), (ok, _) in zip(open_evs, cfres):
+            for (ev, cl, mk), (ok, _) in zip(cand, cfres):
                 if ok:
                     note_known(ctx, f)
                 else:
-                    still.append((ev, cl))
-            open_evs = still
-        for ev, cl in open_evs:
+                    still.append((ev, cl, mk))
+            open_evs = still + rest
+        for ev, cl, _ in open_evs:
             os.makedirs(rdir, exist_ok=True)
             path = os.path.join(rdir, event_key(ev) + ".json")
             with open(path, "w") as fo:
